@@ -168,7 +168,7 @@ def _chk(p):
     return []
 
 
-def _prune_cache(keep=6):
+def _prune_cache(keep=int(os.environ.get("VERIF_CACHE_KEEP", "40"))):
     ds = [os.path.join(CACHE, x) for x in os.listdir(CACHE) if x.startswith("impl-") and not x.endswith(".lock")]
     ds = [d for d in ds if os.path.isdir(d)]
     ds.sort(key=lambda d: os.path.getmtime(os.path.join(d, "OK")) if os.path.exists(os.path.join(d, "OK")) else 0)
